@@ -101,7 +101,8 @@ func (e *Engine) translate(fn *ssa.Function) (res *FuncResult, tr *Trans) {
 		top.binds = append(top.binds, v)
 		entry.assume(fmt.Sprintf("(and (> %s 0) (<= %s %s))", c, c, cur(tr.alloc)))
 		et := fv.Type().(*types.Pointer).Elem()
-		if _, isStruct := et.Underlying().(*types.Struct); isStruct && strings.HasPrefix(tr.sortOf(et).Sort, "S_") {
+		if _, isStruct := et.Underlying().(*types.Struct); isStruct && (strings.HasPrefix(tr.sortOf(et).Sort, "S_") || e.isOpaque(et)) {
+			// a captured struct variable: the name denotes a pointer to it
 			sc.vars[fv.Name()] = TExpr{E: c, Sort: "Int", GoT: fv.Type()}
 		} else {
 			comp, srt := e.sorts.cellComp(et)
@@ -216,6 +217,21 @@ func (tr *Trans) setupFrame(ct *Contract, sc *Scope) {
 			for _, c := range tr.eng.locComps(te, "val") {
 				tr.modSpecific = append(tr.modSpecific, modLoc{c, te.E})
 			}
+		case strings.Contains(m, "[") && strings.HasSuffix(m, "]") && tr.eng.ghost[m[:strings.Index(m, "[")]] != "":
+			g := m[:strings.Index(m, "[")]
+			idx, err := parseExpr(m[strings.Index(m, "[")+1 : len(m)-1])
+			if err != nil {
+				tr.eng.fatal("%s: modifies %q: %v", ct.File, m, err)
+				continue
+			}
+			osc := sc.child()
+			osc.useOld = true
+			it, err := osc.elab(idx)
+			if err != nil {
+				tr.eng.fatal("%s: modifies %q: %v", ct.File, m, err)
+				continue
+			}
+			tr.modSpecific = append(tr.modSpecific, modLoc{g, refOf(it)})
 		case strings.Contains(m, "."):
 			i := strings.LastIndex(m, ".")
 			base, err := parseExpr(m[:i])
@@ -234,7 +250,12 @@ func (tr *Trans) setupFrame(ct *Contract, sc *Scope) {
 				tr.modSpecific = append(tr.modSpecific, modLoc{c, refOf(bt)})
 			}
 		default:
-			tr.modCoarse[m] = true
+			if te, ok := sc.lookup(m); ok && te.Cell != nil {
+				// a captured variable (free variable of a closure under contract)
+				tr.modSpecific = append(tr.modSpecific, modLoc{te.Cell.Comp, te.Cell.Ref})
+			} else {
+				tr.modCoarse[m] = true
+			}
 		}
 	}
 }
@@ -564,7 +585,7 @@ func (tr *Trans) insertExitChecks() {
 					if cl.Name != "" {
 						anchor += "[" + cl.Name + "]"
 					}
-					x.assert(te.E, tr.ob("exit", anchor, token.NoPos, cl.Src, props))
+					x.assert(te.E, tr.restrict(tr.ob("exit", anchor, token.NoPos, cl.Src, props), cl))
 				}
 				x.edge(e.To, "true")
 				e.To = x
